@@ -145,11 +145,33 @@ func compare(base, ren translated, rv map[string]string) string {
 			continue
 		}
 		if isName(ta) && isName(tb) && renamed && tb.Text == want {
-			return fmt.Sprintf("user name inside the statement: token %d is %s vs %s (context: ...%s... vs ...%s...)", i, ta, tb, around(a, i), around(b, i))
+			where := "expression"
+			switch {
+			case i > 0 && a[i-1].Kind == pglex.Keyword && a[i-1].Value == "as":
+				where = "inner-select-alias"
+			case i > 0 && a[i-1].Text == ".":
+				where = "column-reference"
+			case inColumnList(a, i):
+				where = "cte-column-list"
+			}
+			return fmt.Sprintf("user name inside the statement (%s): token %d is %s vs %s (context: ...%s... vs ...%s...)", where, i, ta, tb, around(a, i), around(b, i))
 		}
 		return fmt.Sprintf("token %d differs: %s vs %s (context: ...%s... vs ...%s...)", i, ta, tb, around(a, i), around(b, i))
 	}
 	return ""
+}
+
+// inColumnList reports whether token i sits in a parenthesised list of bare names that is followed by AS ( - the
+// column list of a CTE: name(col, col) as (...).
+func inColumnList(toks []pglex.Token, i int) bool {
+	j := i
+	for j < len(toks) && toks[j].Text != ")" {
+		if toks[j].Kind != pglex.Ident && toks[j].Kind != pglex.Keyword && toks[j].Text != "," {
+			return false
+		}
+		j++
+	}
+	return j+2 < len(toks) && toks[j+1].Kind == pglex.Keyword && toks[j+1].Value == "as" && toks[j+2].Text == "("
 }
 
 func around(toks []pglex.Token, i int) string {
@@ -226,8 +248,9 @@ func judge(it xlate.Item, q *cypher.RegularQuery, syms *symbolNodes, base transl
 			if collision {
 				return mk("parameter-named-like-variable-changes-sql", diff)
 			}
-			if strings.HasPrefix(diff, "user name inside the statement") {
-				return mk("user-name-emitted-inside-statement", diff)
+			if strings.HasPrefix(diff, "user name inside the statement (") {
+				where := diff[len("user name inside the statement ("):strings.Index(diff, ")")]
+				return mk("user-name-emitted-inside-statement:"+where, diff)
 			}
 			return mk("renaming-changes-sql-structure:"+tag, diff)
 		}
